@@ -78,7 +78,7 @@ static void os_proc_exit(OsProc& p) {
   bool fail = p.will_fail;
   if (g_dead) { p.wstatus = 0; return; }
   if (fail) {
-    int code = 1; if (g_os_opts.sym_exit_code) code = 1 + verif_choice("exit_code_minus_1", 3);
+    int code = 1; if (g_os_opts.sym_exit_code) code = sym_exit_code();
     bool by_signal = g_os_opts.sym_exit_code && verif_bool("command_dies_by_signal");
     if (by_signal) { int sig = verif_bool("signal_is_segv") ? SIGSEGV : SIGKILL; p.wstatus = sig; code = 128 + sig; } else p.wstatus = code << 8;
     if (g_sink) { g_sink->failed.push_back(ord); g_sink->exit_codes.push_back(code); } os_sink_event("fail " + e.outs[0]);
@@ -201,6 +201,7 @@ int OSFN(posix_spawn)(pid_t* pid, const char* path, const posix_spawn_file_actio
   if (ref < 0) return ENOENT;
   if (verif_vfs_frozen()) g_dead = true;
   const RefEdge& e = g_ref[ref];
+  g_commands_started = true;      // (from here on a stat() fault may be injected: kit.h)
   OsProc p; p.pid = g_os->next_pid++; p.ref = ref; p.exited = p.reaped = p.lingering = false; p.wstatus = 0; p.killed_by = 0; p.missing_input = false; p.cmdh = e.cmdh; p.flags = e.flags;
   p.out_on_pipe = g_os->fa_dup_to_1 >= 0 && g_os->fa_dup_to_1 == g_os->fa_dup_to_2; p.own_pgroup = (g_os->at_flags & POSIX_SPAWN_SETPGROUP) != 0; p.stdin_null = g_os->fa_stdin_null;
   p.console = !p.out_on_pipe; p.pipe = -1;
@@ -230,7 +231,7 @@ int OSFN(posix_spawn)(pid_t* pid, const char* path, const posix_spawn_file_actio
     if (g_os_opts.check_inputs_fresh && ref_producer(e.reads[i]) && !ref_producer(e.reads[i])->phony) { bool ok = true; long want = clean_content(e.reads[i], &ok); if (ok) VERIF_ASSERT(f && f->exists && f->content == want, g_msg_fresh); }
   }
   for (size_t i = 0; i < e.outs.size(); i++) { size_t sl = e.outs[i].rfind('/'); if (sl != std::string::npos) VERIF_ASSERT(g_tree->has_dir(e.outs[i].substr(0, sl)), "C04: the directory of every output exists when the command starts"); }
-  if (!e.rspfile.empty()) { VFile* f = g_tree->find(e.rspfile); VERIF_ASSERT(f && f->exists && f->is_text && f->text == e.rspfile_content, "C16: the response file holds exactly the evaluated rspfile_content when the command starts"); }
+  if (!e.rspfile.empty() && !g_dead && !verif_vfs_frozen()) { VFile* f = g_tree->find(e.rspfile); VERIF_ASSERT(f && f->exists && f->is_text && f->text == e.rspfile_content, "C16: the response file holds exactly the evaluated rspfile_content when the command starts"); }
   // what it will print
   p.split = false; p.stdout_len_at_start = g_os_opts.prints_output ? verif_stdout_len() : 0;
   p.will_fail = p.missing_input || (p.flags & ALWAYS_FAILS);          // whether it fails is a property of the command and what it read
@@ -350,13 +351,16 @@ static void os_begin(const RunnerOpts& o, int fifo_tokens) {
   g_os = new OsWorld; g_os_opts = o; g_os_load = 0.0; g_os_last_reported_load = 0.0;
 #ifdef LOAD_LIMIT
   g_os_load = verif_bool("machine_is_loaded") ? 50.0 : 0.0;
-#endif g_os->interrupts_left = o.may_interrupt ? 1 : 0;
+#endif
+  g_os->interrupts_left = o.may_interrupt ? 1 : 0;
   g_os->sigchld_first = verif_bool("sigchld_interrupts_poll_first");
   if (fifo_tokens >= 0) { g_os->fifo_exists = true; g_os->external_tokens_left = 1; for (int i = 0; i < fifo_tokens; i++) g_os->fifo.push_back((unsigned char)('a' + i)); g_os->fifo_tokens = fifo_tokens; }
 }
 static void os_end() {
   VERIF_ASSERT(g_os->open_fds == 0, "C06: every pipe and jobserver descriptor ninja opened is closed by the time it exits");
-  bool all_reaped = true; for (size_t i = 0; i < g_os->procs.size(); i++) all_reaped = all_reaped && g_os->procs[i].reaped;
+  // (a build abandoned because ninja's own bookkeeping failed - the injected stat() error - leaves commands that had already exited, but whose result it had
+  //  not yet collected, unreaped: they are dead, their tokens are returned and their outputs looked at; only a command that could still be running counts)
+  bool all_reaped = true; for (size_t i = 0; i < g_os->procs.size(); i++) all_reaped = all_reaped && (g_os->procs[i].reaped || (g_stat_failed && g_os->procs[i].exited));
   VERIF_ASSERT(all_reaped, "C06: every command ninja started has been waited for by the time it exits");
   if (g_os->fifo_exists) { VERIF_ASSERT(g_os->fifo_taken == g_os->fifo_returned, "C06: every jobserver token is returned by the time ninja exits, on every path");
     bool same = (int)g_os->fifo.size() == g_os->fifo_tokens; { int za = 0, zb = 0; for (size_t k = 0; k < g_os->fifo.size(); k++) if (g_os->fifo[k] == (unsigned char)'z') za++; zb = g_os->external_tokens_left == 0 ? 1 : 0; same = same && za == zb; }
